@@ -32,7 +32,7 @@ fn add_stack(m: &mut Model, which: usize) -> Uuid {
 }
 
 fn base(kind_a: SpaceType) -> Model {
-    let mut m = Model { meta: meta(zone("D3")), ..Default::default() };
+    let mut m = model_with_meta(meta(zone("D3")));
     m.cons.materials.push(mat_detailed("xps", 0.04));
     m.cons.materials.push(mat_detailed("conc", 2.3));
     m.cons.materials.push(mat_resistance("rair", 0.18));
@@ -62,6 +62,9 @@ fn model_ext(t: &[usize], bounds: BoundaryType) -> Model {
 fn model_int(t: &[usize], zs: &[f32]) -> Model {
     let mut m = base(KINDS[t[2]]);
     let c = add_stack(&mut m, t[1]);
+    // the habitable height (hence the volume the building-wide ventilation rate is spread over) alternates between
+    // neighbouring configurations: two models evaluated one after the other on a thread differ in it
+    m.spaces[0].height = [3.0, 4.5][(t[0] + t[1] + t[6]) % 2];
     let next_kind = if t[3] < 3 { KINDS[t[3]] } else { SpaceType::UNCONDITIONED };
     let mut b = space("B", next_kind, false, 2.7);
     b.n_v = if t[4] == 0 { Some(0.5) } else { None };
@@ -215,10 +218,10 @@ fn check_monotone(ctx: &Ctx, m: &Model, u0: Option<f32>, case: &dyn Fn() -> Valu
         let l = &m.cons.wallcons[ci].layers;
         let mut v = vec![];
         let mut a = l.clone();
-        a.push(Layer { material: uid("xps"), e: 0.03 });
+        a.push(Layer { material: uid("xps"), e: 0.03, ..Default::default() });
         v.push(("extra-layer", a));
         let mut b = l.clone();
-        b.insert(0, Layer { material: uid("rair"), e: 0.0 });
+        b.insert(0, Layer { material: uid("rair"), e: 0.0, ..Default::default() });
         v.push(("extra-resistance-layer", b));
         if !l.is_empty() {
             let mut c = l.clone();
@@ -315,7 +318,7 @@ pub fn run(ctx: &Ctx) -> i32 {
     ctx.note("branches_reached", json!(b));
     ctx.finish(
         "model_checking",
-        "dependent full products per boundary kind: EXTERIOR/ADIABATIC: tilt{0,45,60,60.01,90,119.99,120,180,270} x layer stack{[], [ins], [R-only], [ins,R-only], [massive], missing material, lambda=0, missing construction (+2 in thorough)} x space kind(3); INTERIOR: x neighbour{conditioned, unconditioned, uninhabited, none, dangling} x n_v{given, not} x building ventilation{given, not} x slab insulation x neighbour depth x owner side; GROUND: x burial depth z x perimeter insulation (D,Rn) x slab size x exposed-perimeter share x slab insulation (the subject is the slab itself for floor tilts); + monotonicity variants (extra layer, extra R-only layer, first layer doubled) for air-contact elements and partitions; + every wall of the 7 shipped models; for every 4th model (all in thorough) also the U-value reported in EnergyIndicators.props.walls for every wall of the model (constructions shared between boundary kinds and tilts); oracle: f64 formulas of EN ISO 6946/13370/13789 with the rounding-interval rule; non-trivial = a U-value is defined",
+        "dependent full products per boundary kind: EXTERIOR/ADIABATIC: tilt{0,45,60,60.01,90,119.99,120,180,270} x layer stack{[], [ins], [R-only], [ins,R-only], [massive], missing material, lambda=0, missing construction (+2 in thorough)} x space kind(3); INTERIOR: x neighbour{conditioned, unconditioned, uninhabited, none, dangling} x n_v{given, not} x building ventilation{given, not} x slab insulation x neighbour depth x owner side (the height of the conditioned space alternates 3.0 / 4.5 m with the configuration index); GROUND: x burial depth z x perimeter insulation (D,Rn) x slab size x exposed-perimeter share x slab insulation (the subject is the slab itself for floor tilts); + monotonicity variants (extra layer, extra R-only layer, first layer doubled) for air-contact elements and partitions; + every wall of the 7 shipped models; for every 4th model (all in thorough) also the U-value reported in EnergyIndicators.props.walls for every wall of the model (constructions shared between boundary kinds and tilts); oracle: f64 formulas of EN ISO 6946/13370/13789 with the rounding-interval rule; non-trivial = a U-value is defined",
         true,
         json!({}),
     )
